@@ -318,6 +318,27 @@ func (e *Env) call(c int, op Op) {
 		end()
 	case "yield":
 		vrt.Point("yield")
+	case "barrier":
+		// all clients whose program has a V-th barrier meet here; the last to arrive goes on first
+		// in the base schedule, so racing operations can be lined up after a common set-up
+		if e.barArrived == nil {
+			e.barArrived = map[int]int{}
+		}
+		e.barArrived[op.V]++
+		need := 0
+		for _, cl := range e.c.Clients {
+			for _, o := range cl {
+				if o.Op == "barrier" && o.V == op.V {
+					need++
+					break
+				}
+			}
+		}
+		k := op.V
+		vrt.Wake(vrt.KeyOf(e) + 1000003)
+		e.barWaiting++
+		vrt.Block(vrt.KeyOf(e)+1000003, "barrier", func() bool { return e.barArrived[k] >= need || e.barOpen[k] })
+		e.barWaiting--
 	default:
 		skip("unknown op")
 	}
